@@ -164,9 +164,9 @@ def _hash_formula_matches_source():
 ENGINE_CHECKS = [_order_lemmas, _hash_formula_matches_source]
 
 CANARIES = [
-    dict(name="GridQid.__le__ uses a strict dimension test", file=FG,
+    dict(name="GridQid.__le__ uses a strict dimension test", file=FG, function=FG + ":_BaseGridQid.__le__",
          find="            return k0 < k1 or (k0 == k1 and self._dimension <= other._dimension)", replace="            return k0 < k1 or (k0 == k1 and self._dimension < other._dimension)"),
-    dict(name="LineQid.__ne__ ignores the dimension", file=FL,
+    dict(name="LineQid.__ne__ ignores the dimension", file=FL, function=FL + ":_BaseLineQid.__ne__",
          find="                self._x != other._x or self._dimension != other._dimension", replace="                self._x != other._x"),
     dict(name="GridQid hash ignores the row", file=FG, engine_check=1,
          find="            inst._hash = ((dimension - 2) * 1_000_003 + hash(col)) * 1_000_003 + hash(row)", replace="            inst._hash = ((dimension - 2) * 1_000_003 + hash(col)) * 1_000_003"),
